@@ -14,6 +14,17 @@ NOT_APPLICABLE = {
 }
 PENDING = "no solver-based check has been built for this property yet (work in progress; see DESIGN.md section 8)"
 
+_T = {
+    "E-CH": "bounded symbolic execution of the real functions (CrossHair + z3), exhaustive over paths within stated size bounds, counterexamples replayed concretely",
+    "E-TS": "bounded model checking (z3, bit-vector state, symbolic schedule and initial state) of transition systems compiled from the current AST of the real functions; safety, stuck-state and witness queries; traces replayed on the real methods",
+    "E-SYM": "path-complete symbolic execution of the current AST into z3 (mathematical integers), one unsat query per path and clause, translator validated against the real function, counterexamples replayed",
+}
+
+
+def _technique(engine):
+    return "; ".join(_T[e] for e in engine.split("+") if e in _T)
+
+
 checks, na = [], []
 for pid in ALL:
     try:
@@ -37,7 +48,7 @@ for pid in ALL:
             "design_ref": getattr(pm, "DESIGN_REF", f"DESIGN.md section 4, {pid}"),
         },
         "level_note": getattr(pm, "LEVEL_NOTE", "; ".join(getattr(pm, "ASSUMPTIONS", []))),
-        "technique": getattr(pm, "TECHNIQUE", "bounded symbolic execution of the real functions (CrossHair + z3), exhaustive over paths within stated size bounds, counterexamples replayed concretely"),
+        "technique": getattr(pm, "TECHNIQUE", None) or _technique(getattr(pm, "ENGINE", "E-CH")),
     })
 
 manifest = {
